@@ -780,7 +780,7 @@ impl NamingActor {
                 if sniffing_result {
                     server.update_perpetual_instance_healthy_valid(&host);
                 } else {
-                    server.update_instance_healthy_invalid(&host);
+                    server.update_perpetual_instance_healthy_invalid(&host);
                 }
             }
         }
